@@ -10,4 +10,5 @@ CONSTANTS
   JumpMags = {31}
   QStale = FALSE
   QExact0 = FALSE
+  QBackstep = FALSE
 INVARIANTS Bounds Residual WalkerMeaning PathIndependent SmallIsStep
